@@ -110,7 +110,12 @@ impl Filter for BasicFilter {
 
             // get relative frequency difference
             let mut freq_diff = interval_local / interval_master;
-            if (freq_diff - 1.0).abs() > self.freq_confidence {
+            if !freq_diff.is_finite() {
+                // The master's time did not advance between the two
+                // measurements (e.g. a duplicated measurement), so this
+                // sample carries no frequency information.
+                freq_diff = 1.0;
+            } else if (freq_diff - 1.0).abs() > self.freq_confidence {
                 freq_diff = freq_diff.clamp(1.0 - self.freq_confidence, 1.0 + self.freq_confidence);
                 self.freq_confidence *= 2.0;
             } else {
@@ -147,10 +152,13 @@ impl Filter for BasicFilter {
         if let Err(error) = clock.step_clock(correction) {
             log::error!("Could not step clock: {:?}", error);
         }
-        if let Err(error) = clock.set_frequency(self.cur_freq + freq_corr) {
+        let new_freq = self.cur_freq + freq_corr;
+        if !new_freq.is_finite() {
+            log::error!("Refusing to set non-finite clock frequency");
+        } else if let Err(error) = clock.set_frequency(new_freq) {
             log::error!("Could not adjust clock frequency: {:?}", error);
         } else {
-            self.cur_freq += freq_corr;
+            self.cur_freq = new_freq;
         }
         update
     }
